@@ -160,6 +160,11 @@ PROPS['C10']['rule'] = SERVER_RULE + (' PLUS the receive path (IPv4 -> UDP -> DH
     'truncation at every offset (IP/UDP lengths consistent), every hlen 0..255, option areas over {pad,end,53,1,61,4,200} exhaustively to length 4 (thorough 6), '
     'random bytes, random payloads, bit flips, length fields off by one, frames up to 4 KB; a panic is a violation with the frame as replay.')
 PROPS['C06']['tests'] = PROPS['C06']['tests'] + ['TestC09NoAlias']
+# C07 on the wire: OFFER/ACK of the running server carry the option list of the sender's hardware address, the advertised lease is reserved
+PROPS['C07']['tests'] = PROPS['C07']['tests'] + ['TestServerHistories']
+PROPS['C07']['env'] = {'VERIF_MONITORS': '207'}
+PROPS['C07']['monitor_tags'] = PROPS['C07']['monitor_tags'] | {207}
+PROPS['C07'].setdefault('timeout', {'quick': 900, 'thorough': 14000})
 
 PROPS['C14'] = dict(
     tests=['TestC14'],
@@ -244,7 +249,9 @@ PROPS['C20'] = dict(
 )
 
 PROPS['C15']['direct_files'] = []
-PROPS['C15']['case_files'] = ['c15']
+PROPS['C15']['case_files'] = ['c15', 'c15dl']
+PROPS['C15']['tests'] = PROPS['C15']['tests'] + ['TestC15Deadlines']
+PROPS['C15']['spec_equal_tags'] = {1503}
 # C16: message formats (templates) + timing of retransmissions observed on the client scripts of C15
 PROPS['C16']['tests'] = PROPS['C16']['tests'] + ['TestC15']
 PROPS['C16']['direct_files'] = ['c16timing']
